@@ -4,7 +4,9 @@ import (
 	"bytes"
 	"fmt"
 	"io"
+	"os"
 	"strings"
+	"syscall"
 
 	"github.com/hedzr/is"
 	"github.com/hedzr/logg/slog"
@@ -78,6 +80,7 @@ func c13enum(c *Ctx) {
 
 	log := mon.NewLog()
 	var attempt int
+	var errKind int
 	var sched uint
 	var schedLen int
 	var pool []mon.W
@@ -94,6 +97,12 @@ func c13enum(c *Ctx) {
 				return true, n
 			}
 			return false, len(p)
+		}
+		// the error values a real destination returns: closed files and pipes, full disks, short writes, wrapped ones
+		w.Core().Err = func(int) error {
+			kinds := []error{mon.ErrInjected, os.ErrClosed, io.ErrClosedPipe, io.ErrShortWrite, syscall.ENOSPC, syscall.EPIPE,
+				fmt.Errorf("write /var/log/app.log: %w", os.ErrClosed), &os.PathError{Op: "write", Path: "/dev/stdout", Err: syscall.EBADF}, io.EOF}
+			return kinds[(errKind+attempt)%len(kinds)]
 		}
 		pool = append(pool, w)
 	}
@@ -133,6 +142,7 @@ func c13enum(c *Ctx) {
 		lg.SetLevel(L)
 		is.SetDebugMode(false)
 		attempt, sched, schedLen = 0, uint(sc), maxAttempts
+		errKind = idx / nSched // the kind of error rotates with the case
 		desc := map[string]any{"config": cfgIdx, "normal": cfg.normal, "error": cfg.errs, "per_level": fmt.Sprint(cfg.perLevel), "logger_level": L.String(), "calls": fmt.Sprint(sq), "schedule_bits": fmt.Sprintf("%0*b (bit i = attempt i fails, LSB first)", maxAttempts, sc)}
 		failedAny := false
 		judge := func(phase string, ci int, sev slog.Level, healthy bool) bool {
